@@ -130,7 +130,12 @@ class landuse(PseudoNetCDFFile):
 
         data = memmap(self.__rf, mode=self.__mode, dtype=file_dtype, offset=0)
         if not self._newstyle:
-            varkeys = ['FLAND', 'TOPO']
+            # old-style records carry no key: a single optional record is
+            # TOPO, two are LAI and TOPO
+            if len(file_dtype.names) == 3:
+                varkeys = ['FLAND', 'LAI', 'TOPO']
+            else:
+                varkeys = ['FLAND', 'TOPO']
         else:
             varkeys = [data[k]['KEY'][0].strip() for k in file_dtype.names]
             varkeys = [k.decode() if hasattr(k, 'decode')
